@@ -78,6 +78,9 @@ func (p *Pair) Model(op Op, timeout time.Duration) Result {
 	if i := strings.Index(op.Name, "@"); i >= 0 {
 		op = Op{op.Name[:i], op.Args}
 	}
+	if op.Name == "cli.compareView" {
+		op = Op{"compare.view", op.Args} // the model of the display takes the two expressions as they are
+	}
 	if op.Name == "gen.runYaml" && len(op.Args) >= 8 {
 		// the model takes the six patterns as the loader delivers them: an absent, empty or unreadable file means none
 		args := append([][]byte{}, op.Args[1:]...)
